@@ -418,6 +418,7 @@ func run(c Case) (pbt.Outcome, error) {
 		gotCount := map[string]int{}
 		type bucketSeen struct{ id, rng string }
 		wideIDs := map[int64]string{} // samples (= bucket index + 1) -> bucket id tag value
+		wideRanges := map[int64]string{}
 		for gi, d := range s.Datagrams() {
 			_, batch, err := m3h.Decode(c.Binary, d)
 			if err != nil {
@@ -500,6 +501,9 @@ func run(c Case) (pbt.Outcome, error) {
 						if tg.Name == idName {
 							wideIDs[m.Value.Count] = tg.Value
 						}
+						if tg.Name == bucketName {
+							wideRanges[m.Value.Count] = tg.Value
+						}
 					}
 				}
 				canon := m3h.Canon(cm)
@@ -532,6 +536,14 @@ func run(c Case) (pbt.Outcome, error) {
 					break
 				}
 			}
+		}
+		seenRange := map[string]int64{}
+		for k, v := range wideRanges {
+			if o, dup := seenRange[v]; dup {
+				errs.Addf("destination %d: histogram with %d bounds: buckets %d and %d carry the same bucket-range tag %q", si, c.Wide, o-1, k-1, v)
+				break
+			}
+			seenRange[v] = k
 		}
 		var keys []string
 		for k := range wantCount {
@@ -572,7 +584,7 @@ func run(c Case) (pbt.Outcome, error) {
 func TestC13(t *testing.T) {
 	pbt.Main(t, pbt.Prop[Case]{
 		ID: "C13", Name: "delivery",
-		Rule: "rapid-generated M3 reporter configurations (Compact/Binary, 1..3 real loopback destinations - in a quarter of the cases with an additional unreachable destination somewhere in the host list (sends to it fail), which must not disturb the live ones -, queue size 1..4096, common tags, packet size, default or custom bucket tag names) and 1..4 producer goroutines (real threads) started right after NewReporter, each a history of 1..12 Allocate*+Report*/Flush ops (and, in a sixth of the cases, bursts of 50..3000 distinct values per producer through ONE counter, gauge and timer handle shared by all producers) with arbitrary byte-string names, tag keys/values drawn from an alphabet rich in '=' (so that different tag maps have equal 'k=v' strings), full-range int64/float64 values, occasionally a name longer than MaxPacketSizeBytes (such a metric must still be delivered exactly once), histogram buckets of strictly increasing specs, repeats; in a quarter of the cases one more value or duration histogram with 2..12000 bounds (sizes around the powers of ten) whose first, last and power-of-ten-neighbouring buckets each get index+1 samples; then Close. Oracle per destination: every datagram decodes as exactly one well-formed one-way message with the configured common tags (service and env included); the multiset of decoded non-internal metrics (name, kind, value bits, tag set, bucket tags present) equals the multiset reported; timestamps within [construction, return of the report call] (+1ms); the bucket ids of the wide histogram increase with the bucket index, compared as strings and as numbers; Close returned only after every emitted batch had been sent (all datagrams present). Non-trivial: >=2 distinct tag sets and >=2 datagrams. Distinct: FNV-64 of the case JSON.",
+		Rule: "rapid-generated M3 reporter configurations (Compact/Binary, 1..3 real loopback destinations - in a quarter of the cases with an additional unreachable destination somewhere in the host list (sends to it fail), which must not disturb the live ones -, queue size 1..4096, common tags, packet size, default or custom bucket tag names) and 1..4 producer goroutines (real threads) started right after NewReporter, each a history of 1..12 Allocate*+Report*/Flush ops (and, in a sixth of the cases, bursts of 50..3000 distinct values per producer through ONE counter, gauge and timer handle shared by all producers) with arbitrary byte-string names, tag keys/values drawn from an alphabet rich in '=' (so that different tag maps have equal 'k=v' strings), full-range int64/float64 values, occasionally a name longer than MaxPacketSizeBytes (such a metric must still be delivered exactly once), histogram buckets of strictly increasing specs, repeats; in a quarter of the cases one more value or duration histogram with 2..12000 bounds (sizes around the powers of ten) whose first, last and power-of-ten-neighbouring buckets each get index+1 samples; then Close. Oracle per destination: every datagram decodes as exactly one well-formed one-way message with the configured common tags (service and env included); the multiset of decoded non-internal metrics (name, kind, value bits, tag set, bucket tags present) equals the multiset reported; timestamps within [construction, return of the report call] (+1ms); the bucket ids of the wide histogram increase with the bucket index, compared as strings and as numbers, and its buckets carry pairwise different bucket-range tags; Close returned only after every emitted batch had been sent (all datagrams present). Non-trivial: >=2 distinct tag sets and >=2 datagrams. Distinct: FNV-64 of the case JSON.",
 		Gen:  gen, Run: run, HangAfter: 90 * time.Second,
 	})
 }
